@@ -129,7 +129,7 @@ class Ctx:
         m = re.findall(r"(\d+) states generated, (\d+) distinct states found", out)
         gen, dist = (int(m[-1][0]), int(m[-1][1])) if m else (0, 0)
         violated = bool(re.search(r"Error: (Invariant|Action property|Temporal properties|Deadlock|Property) ", out)) \
-            or "is violated" in out or "Deadlock reached" in out
+            or "is violated" in out or "was violated" in out or "Deadlock reached" in out
         failed_post = bool(re.search(r"Postcondition .* is false", out))
         errors = [l for l in out.splitlines() if l.startswith("Error:")]
         tool_err = bool(errors) and not violated and not failed_post
@@ -160,7 +160,7 @@ class Ctx:
         d = self.specdir()
         txt = open(os.path.join(d, base)).read()
         for k, v in overrides.items():
-            txt, n = re.subn(r"(?m)^(\s*%s\s*=\s*).*$" % re.escape(k), lambda m: m.group(1) + str(v), txt)
+            txt, n = re.subn(r"(?m)^(\s*%s\s*(?:=|<-)\s*).*$" % re.escape(k), lambda m: m.group(1) + str(v), txt)
             if n == 0:
                 raise Broken("cfg_variant: constant %s not in %s" % (k, base))
         for nm in (drop or []):
